@@ -98,6 +98,58 @@ Proof.
   destruct (ior (ipc (io st))) eqn:E; auto. pose proof (proj2 H1 eq_refl). congruence.
 Qed.
 
+
+(* the standard opening of a preservation proof: [step_cases Hs] turns
+   Hs : step P st c = Some (st', l) into one goal per program point and branch, with
+   st = {| sh := s; io := i; wk := w |} taken apart and st' replaced by its value.
+   In the worker goals Hw : w me = {| wpc := <pc>; ... |}. *)
+Ltac step_io Hs :=
+  match type of Hs with step ?P ?st (CIo ?e) = Some (?st', ?l) =>
+    unfold step in Hs;
+    let E := fresh "E" in
+    destruct (io_step P (sh st) (io st) e) as [[[s' i'] l']|] eqn:E; [|discriminate Hs];
+    inv_some Hs;
+    unfold io_step, sc_step, at_step, fl_step, sc_enter, io_after_read in E;
+    destruct st as [s i w]; cbn [sh io wk] in *;
+    destruct i as [pc ir iw iws its icur icomp]; cbn [ipc i_r i_w i_ws i_items i_cur i_comp] in *;
+    destruct pc; break_step E; inv_some E
+  end.
+
+Ltac step_wk Hs :=
+  match type of Hs with step ?P ?st (CWk ?me ?e) = Some (?st', ?l) =>
+    unfold step in Hs;
+    let Hme := fresh "Hme" in
+    destruct (Nat.ltb me (p_nw P)) eqn:Hme; [|discriminate Hs];
+    let E := fresh "E" in
+    destruct (wk_step P me (sh st) (wk st me) e) as [[[s' w'] l']|] eqn:E; [|discriminate Hs];
+    inv_some Hs;
+    unfold wk_step, sc_step, at_step, fl_step, sc_enter, wk_next_write in E;
+    destruct st as [s i w]; cbn [sh io wk] in *;
+    let Hw := fresh "Hw" in
+    destruct (w me) as [pc cur idx off cl] eqn:Hw; cbn [wpc w_cur w_idx w_off w_close] in *;
+    destruct pc; break_step E; inv_some E
+  end.
+
+Ltac bool_hyps :=
+  repeat match goal with
+  | H : (_ && _)%bool = true |- _ => apply andb_true_iff in H; destruct H
+  | H : (_ && _)%bool = false |- _ => apply andb_false_iff in H
+  | H : negb _ = true |- _ => apply negb_true_iff in H
+  | H : negb _ = false |- _ => apply negb_false_iff in H
+  | H : free ?l = true |- _ => apply free_none in H
+  | H : free ?l = false |- _ => apply free_some in H; destruct H as [? H]
+  | H : Nat.eqb _ _ = true |- _ => apply Nat.eqb_eq in H
+  | H : Nat.eqb _ _ = false |- _ => apply Nat.eqb_neq in H
+  | H : Nat.ltb _ _ = true |- _ => apply Nat.ltb_lt in H
+  | H : Nat.ltb _ _ = false |- _ => apply Nat.ltb_ge in H
+  | H : Nat.leb _ _ = true |- _ => apply Nat.leb_le in H
+  | H : Nat.leb _ _ = false |- _ => apply Nat.leb_gt in H
+  end.
+
+(* for a goal [forall j, ... (upd w me x j) ...] *)
+Ltac upd_cases j me :=
+  unfold upd; destruct (Nat.eqb_spec j me); [subst j|].
+
 Section Step.
 Variable P : params.
 
